@@ -44,11 +44,30 @@ func (s c07Str) str() string {
 	return s.V + strings.Repeat(s.Rep, s.N)
 }
 
+// c07NIDVal is an attribute value that is a name identifier: a <saml:NameID> element inside the <saml:AttributeValue>
+// (the standard form of eduPersonTargetedID), which is what AttributeValue.NameID is for.
+type c07NIDVal struct {
+	Value           c07Str `json:"value"`
+	Format          string `json:"format,omitempty"`
+	NameQualifier   string `json:"name_qualifier,omitempty"`
+	SPNameQualifier string `json:"sp_name_qualifier,omitempty"`
+}
+
 type c07Attr struct {
 	Name       c07Str   `json:"name"`
 	Friendly   c07Str   `json:"friendly"`
 	NameFormat string   `json:"name_format"`
 	Values     []c07Str `json:"values"`
+	// NameIDs, when present, runs parallel to Values: a non-nil entry makes that value carry a name identifier element
+	// (the string of the same index is then the text beside it, normally empty, and the value has no xsi:type)
+	NameIDs []*c07NIDVal `json:"value_name_ids,omitempty"`
+}
+
+func (a c07Attr) nameID(q int) *c07NIDVal {
+	if q < len(a.NameIDs) {
+		return a.NameIDs[q]
+	}
+	return nil
 }
 
 type c07Session struct {
@@ -72,7 +91,7 @@ type c07Knobs struct {
 	EntityID   string `json:"sp_entity_id"`        // "" = unset (metadata URL is the entity ID)
 	Binding    string `json:"request_binding"`     // redirect | post
 	SPSig      string `json:"sp_signature_method"` // "" = unsigned requests
-	IdPKey     string `json:"idp_key"`             // rsa0 | rsa2 | ec0 (ec only through crypto.Signer)
+	IdPKey     string `json:"idp_key"`             // rsa0 | rsa2 | ec0 (self-signed) | rsaleaf | ecleaf (certificate issued by a CA); ec only through crypto.Signer
 	IdPSigner  bool   `json:"idp_uses_signer"`
 	IdPSig     string `json:"idp_signature_method"`             // "" = library default
 	IdPEntry   string `json:"idp_entry"`                        // lib (NewIdpAuthnRequest/Validate/MakeAssertion/PostBinding) | servesso (ServeSSO + browser form parse)
@@ -81,6 +100,9 @@ type c07Knobs struct {
 	NameIDFmt  string `json:"sp_authn_nameid_format,omitempty"` // ServiceProvider.AuthnNameIDFormat ("": unset)
 	ForceAuthn bool   `json:"sp_force_authn,omitempty"`
 	ReqCtx     bool   `json:"sp_requested_authn_context,omitempty"` // RequestedAuthnContext with the comparison left unset
+	// IdPChain is the number of CA certificates the IdP is configured with in IdentityProvider.Intermediates (0: none; 1: the CA that
+	// issued its certificate; 2: that CA and the root that issued the CA's). Only for the CA-issued IdP keys.
+	IdPChain int `json:"idp_intermediates,omitempty"`
 }
 
 type c07Step struct {
@@ -236,6 +258,10 @@ func c07GenSession(g *Rng, i int, tier string, crRate float64) c07Session {
 	nc := g.PickW(4, 4, 2)
 	for j := 0; j < nc; j++ {
 		a := c07Attr{Name: gs(fmt.Sprintf("an%d_", j)), NameFormat: Pick(g, c07NameFormats...)}
+		if j > 0 && g.Bool(0.15) {
+			// a later attribute under the name (and name format) of the first: both are part of the identity, in order
+			a.Name, a.NameFormat = s.Custom[0].Name, s.Custom[0].NameFormat
+		}
 		if g.Bool(0.5) {
 			a.Friendly = gs(fmt.Sprintf("af%d_", j))
 		} else {
@@ -243,7 +269,29 @@ func c07GenSession(g *Rng, i int, tier string, crRate float64) c07Session {
 		}
 		// 1-3 values, or none at all (an attribute the user has, currently without a value: its name is still part of the identity)
 		nv := g.PickW(2, 5, 3, 1)
+		// attributes whose values are name identifiers (eduPersonTargetedID and its like) are a fifth of the attributes, and most
+		// of their values are of that kind
+		nidAttr := g.Bool(0.2)
 		for q := 0; q < nv; q++ {
+			if nidAttr && g.Bool(0.75) {
+				n := &c07NIDVal{Value: gs(fmt.Sprintf("avn%d_%d_", j, q)), Format: Pick(g, c07NameIDFormats...)}
+				if g.Bool(0.5) {
+					n.NameQualifier = c07IdPBase + "/metadata"
+				}
+				if g.Bool(0.5) {
+					n.SPNameQualifier = spBase + "/saml/metadata"
+				}
+				for len(a.NameIDs) < q {
+					a.NameIDs = append(a.NameIDs, nil)
+				}
+				a.NameIDs = append(a.NameIDs, n)
+				text := c07Str{Class: "empty"}
+				if g.Bool(0.1) {
+					text = gs(fmt.Sprintf("av%d_%d_", j, q)) // text beside the element
+				}
+				a.Values = append(a.Values, text)
+				continue
+			}
 			a.Values = append(a.Values, gs(fmt.Sprintf("av%d_%d_", j, q)))
 		}
 		s.Custom = append(s.Custom, a)
@@ -275,7 +323,7 @@ func genRoundtrip(g *Rng, tier string) *Plan {
 			k.SPSig = Pick(g, c07RSAMethods...)
 		}
 	}
-	switch g.PickW(5, 4, 2) {
+	switch g.PickW(5, 4, 2, 2, 1) {
 	case 0:
 		k.IdPKey = "rsa0"
 	case 1:
@@ -288,8 +336,16 @@ func genRoundtrip(g *Rng, tier string) *Plan {
 		if k.SPKey == "ec0" {
 			k.SPKey = "ec1"
 		}
+	case 3:
+		k.IdPKey = "rsaleaf"
+	case 4:
+		k.IdPKey = "ecleaf"
 	}
-	if k.IdPKey == "ec0" {
+	if strings.HasSuffix(k.IdPKey, "leaf") {
+		// an IdP whose certificate a CA issued: configured with the chain above it (so that it sends the chain along), or not
+		k.IdPChain = g.PickW(1, 2, 2)
+	}
+	if strings.HasPrefix(k.IdPKey, "ec") {
 		k.IdPSigner = true
 		k.IdPSig = Pick(g, c07ECMethods...)
 	} else {
@@ -334,7 +390,7 @@ func genRoundtrip(g *Rng, tier string) *Plan {
 // ---------------------------------------------------------------- world
 
 func c07Key(name string) (KeyPair, bool) {
-	for _, k := range []KeyPair{rsaSig, rsaSKI, rsa4096, rsa1024} {
+	for _, k := range []KeyPair{rsaSig, rsaSKI, rsa4096, rsa1024, rsaLeaf, ecLeaf} {
 		if k.Name == name {
 			return k, true
 		}
@@ -373,6 +429,14 @@ func c07Build(k c07Knobs) (w *c07World, stage string, detail string) {
 	if k.IdPSigner {
 		w.idp.Signer = idpKP.Key
 		w.idp.Key = nil
+	}
+	if k.IdPChain > 0 {
+		if !strings.HasSuffix(k.IdPKey, "leaf") {
+			return nil, "plan", "intermediates for a self-signed idp key " + k.IdPKey
+		}
+		for _, ca := range []KeyPair{rsaICA, rsaCA}[:min(k.IdPChain, 2)] {
+			w.idp.Intermediates = append(w.idp.Intermediates, ca.Cert)
+		}
 	}
 	// IdP metadata → bytes → SP
 	var idpMDBytes []byte
@@ -500,7 +564,12 @@ func (s c07Session) toSession() *saml.Session {
 	}
 	for _, a := range s.Custom {
 		at := saml.Attribute{Name: a.Name.str(), FriendlyName: a.Friendly.str(), NameFormat: a.NameFormat}
-		for _, v := range a.Values {
+		for q, v := range a.Values {
+			if n := a.nameID(q); n != nil {
+				at.Values = append(at.Values, saml.AttributeValue{Value: v.str(), NameID: &saml.NameID{Format: n.Format, NameQualifier: n.NameQualifier,
+					SPNameQualifier: n.SPNameQualifier, Value: n.Value.str()}})
+				continue
+			}
 			at.Values = append(at.Values, saml.AttributeValue{Type: "xs:string", Value: v.str()})
 		}
 		out.CustomAttributes = append(out.CustomAttributes, at)
@@ -534,7 +603,12 @@ func c07IdentityOf(a *saml.Assertion) c07Identity {
 		for _, at := range st.Attributes {
 			c := saml.Attribute{Name: at.Name, FriendlyName: at.FriendlyName, NameFormat: at.NameFormat}
 			for _, v := range at.Values {
-				c.Values = append(c.Values, saml.AttributeValue{Type: v.Type, Value: v.Value})
+				cv := saml.AttributeValue{Type: v.Type, Value: v.Value}
+				if v.NameID != nil {
+					n := *v.NameID
+					cv.NameID = &n
+				}
+				c.Values = append(c.Values, cv)
 			}
 			id.Attrs = append(id.Attrs, c)
 		}
@@ -543,7 +617,7 @@ func c07IdentityOf(a *saml.Assertion) c07Identity {
 }
 
 type c07Diff struct {
-	Kind     string // nameid | nameid-format | session-index | attribute-count | attribute-order | attribute-name | attribute-value | attribute-value-count | attribute-type | subject-missing
+	Kind     string // nameid | nameid-format | session-index | attribute-count | attribute-order | attribute-name | attribute-value | attribute-value-nameid | attribute-value-count | attribute-type | subject-missing
 	Field    string
 	Expected string
 	Observed string
@@ -554,9 +628,20 @@ func c07AttrKey(a saml.Attribute) string {
 	fmt.Fprintf(&b, "%q|%q|%q", a.Name, a.FriendlyName, a.NameFormat)
 	for _, v := range a.Values {
 		fmt.Fprintf(&b, "|%q:%q", v.Type, v.Value)
+		b.WriteString(c07NameIDKey(v.NameID))
 	}
 	return b.String()
 }
+
+// c07NameIDKey renders the name identifier element of an attribute value ("" when the value has none).
+func c07NameIDKey(n *saml.NameID) string {
+	if n == nil {
+		return ""
+	}
+	return fmt.Sprintf("<NameID Format=%q NameQualifier=%q SPNameQualifier=%q SPProvidedID=%q>%q", n.Format, n.NameQualifier, n.SPNameQualifier, n.SPProvidedID, n.Value)
+}
+
+func c07OrAbsent(s string) string { return c07Or(s, "no NameID element") }
 
 // c07Compare lists the differences between what was put in (want) and what came out (got).
 func c07Compare(want, got c07Identity) []c07Diff {
@@ -618,6 +703,9 @@ func c07Compare(want, got c07Identity) []c07Diff {
 			}
 			if w.Values[j].Type != g.Values[j].Type {
 				d = append(d, c07Diff{"attribute-type", fmt.Sprintf("%s/AttributeValue[%d]/@type", f, j), w.Values[j].Type, g.Values[j].Type})
+			}
+			if wn, gn := c07NameIDKey(w.Values[j].NameID), c07NameIDKey(g.Values[j].NameID); wn != gn {
+				d = append(d, c07Diff{"attribute-value-nameid", fmt.Sprintf("%s/AttributeValue[%d]/NameID", f, j), c07OrAbsent(wn), c07OrAbsent(gn)})
 			}
 		}
 	}
@@ -692,6 +780,10 @@ func c07SessionVsAssertion(s *saml.Session, id c07Identity) []c07Diff {
 			}
 		}
 		if !found {
+			if nd := c07NameIDOnlyDiff(c, id.Attrs, ci); nd != nil {
+				d = append(d, *nd)
+				break
+			}
 			d = append(d, c07Diff{"attribute-order", fmt.Sprintf("session.CustomAttributes[%d]", ci), c07AttrKey(c), "not present unchanged at its place"})
 			break
 		}
@@ -702,9 +794,11 @@ func c07SessionVsAssertion(s *saml.Session, id c07Identity) []c07Diff {
 	for _, g := range s.Groups {
 		known[g] = true
 	}
+	knownNID := map[string]bool{}
 	for _, c := range s.CustomAttributes {
 		for _, v := range c.Values {
 			known[v.Value] = true
+			knownNID[c07NameIDKey(v.NameID)] = true
 		}
 	}
 	for i, a := range id.Attrs {
@@ -712,9 +806,36 @@ func c07SessionVsAssertion(s *saml.Session, id c07Identity) []c07Diff {
 			if !known[v.Value] {
 				d = append(d, c07Diff{"attribute-value", fmt.Sprintf("Attribute[%d]/AttributeValue[%d]", i, j), "a string of the session", v.Value})
 			}
+			if v.NameID != nil && !knownNID[c07NameIDKey(v.NameID)] {
+				d = append(d, c07Diff{"attribute-value-nameid", fmt.Sprintf("Attribute[%d]/AttributeValue[%d]/NameID", i, j), "a name identifier of the session's custom attributes", c07NameIDKey(v.NameID)})
+			}
 		}
 	}
 	return d
+}
+
+// c07NameIDOnlyDiff says whether the custom attribute c is in attrs with its name, its strings and its value types intact and only
+// the name identifier elements of its values differing; it then names the first such value.
+func c07NameIDOnlyDiff(c saml.Attribute, attrs []saml.Attribute, ci int) *c07Diff {
+	for _, a := range attrs {
+		if a.Name != c.Name || a.FriendlyName != c.FriendlyName || a.NameFormat != c.NameFormat || len(a.Values) != len(c.Values) {
+			continue
+		}
+		first, same := -1, true
+		for j := range c.Values {
+			if a.Values[j].Type != c.Values[j].Type || a.Values[j].Value != c.Values[j].Value {
+				same = false
+			}
+			if first < 0 && c07NameIDKey(a.Values[j].NameID) != c07NameIDKey(c.Values[j].NameID) {
+				first = j
+			}
+		}
+		if same && first >= 0 {
+			return &c07Diff{"attribute-value-nameid", fmt.Sprintf("session.CustomAttributes[%d]/AttributeValue[%d]/NameID", ci, first),
+				c07OrAbsent(c07NameIDKey(c.Values[first].NameID)), c07OrAbsent(c07NameIDKey(a.Values[first].NameID))}
+		}
+	}
+	return nil
 }
 
 // c07Outcome is what one flow produced.
@@ -908,6 +1029,14 @@ func (s c07Session) classes() []string {
 			add(fmt.Sprintf("custom%d.friendly", i), a.Friendly)
 		}
 		for j, v := range a.Values {
+			if n := a.nameID(j); n != nil {
+				out = append(out, fmt.Sprintf("custom%d.value%d:name-identifier", i, j))
+				add(fmt.Sprintf("custom%d.value%d.nameid", i, j), n.Value)
+				if v.Class != "empty" {
+					add(fmt.Sprintf("custom%d.value%d.text", i, j), v)
+				}
+				continue
+			}
 			add(fmt.Sprintf("custom%d.value%d", i, j), v)
 		}
 		if len(a.Values) == 0 {
@@ -923,8 +1052,26 @@ func (s c07Session) all() []c07Str {
 	for _, a := range s.Custom {
 		out = append(out, a.Name, a.Friendly)
 		out = append(out, a.Values...)
+		for _, n := range a.NameIDs {
+			if n != nil {
+				out = append(out, n.Value)
+			}
+		}
 	}
 	return out
+}
+
+// nameIDValued counts the custom attribute values that are name identifier elements.
+func (s c07Session) nameIDValued() int {
+	c := 0
+	for _, a := range s.Custom {
+		for _, n := range a.NameIDs {
+			if n != nil {
+				c++
+			}
+		}
+	}
+	return c
 }
 
 func (s c07Session) hasCR() bool {
@@ -951,6 +1098,14 @@ func (s c07Session) mapStrings(f func(string) string) c07Session {
 		na := c07Attr{Name: m(a.Name), Friendly: m(a.Friendly), NameFormat: a.NameFormat}
 		for _, v := range a.Values {
 			na.Values = append(na.Values, m(v))
+		}
+		for _, n := range a.NameIDs {
+			if n != nil {
+				c := *n
+				c.Value = m(n.Value)
+				n = &c
+			}
+			na.NameIDs = append(na.NameIDs, n)
 		}
 		o.Custom = append(o.Custom, na)
 	}
@@ -996,8 +1151,8 @@ func execRoundtrip(t *testing.T, p *Plan) *Result {
 	nonDefault := k != def
 
 	w, stage, detail := c07Build(k)
-	res.logf("world sp_key=%s entity_id_set=%v binding=%s sp_sig=%s idp_key=%s signer=%v idp_sig=%s idp_entry=%s sp_entry=%s md=%s build=%s",
-		k.SPKey, k.EntityID != "", k.Binding, c07Short(k.SPSig), k.IdPKey, k.IdPSigner, c07Short(k.IdPSig), k.IdPEntry, k.SPEntry, k.MDWire, c07Or(stage, "ok"))
+	res.logf("world sp_key=%s entity_id_set=%v binding=%s sp_sig=%s idp_key=%s idp_intermediates=%d signer=%v idp_sig=%s idp_entry=%s sp_entry=%s md=%s build=%s",
+		k.SPKey, k.EntityID != "", k.Binding, c07Short(k.SPSig), k.IdPKey, k.IdPChain, k.IdPSigner, c07Short(k.IdPSig), k.IdPEntry, k.SPEntry, k.MDWire, c07Or(stage, "ok"))
 	if stage != "" {
 		if stage == "plan" {
 			panic("harness: " + detail)
@@ -1089,6 +1244,18 @@ func execRoundtrip(t *testing.T, p *Plan) *Result {
 				res.probe("custom-attribute-without-values/" + observed)
 				break
 			}
+		}
+		for j, a := range st.Session.Custom {
+			if j > 0 && a.Name.str() == st.Session.Custom[0].Name.str() && a.NameFormat == st.Session.Custom[0].NameFormat {
+				res.probe("custom-attributes-share-name-and-format/" + observed)
+				break
+			}
+		}
+		if st.Session.nameIDValued() > 0 {
+			res.probe("custom-attribute-value-is-name-identifier/wire=" + out.Wire + "/" + observed)
+		}
+		if strings.HasSuffix(k.IdPKey, "leaf") {
+			res.probe(fmt.Sprintf("idp-certificate-issued-by-ca/%s/intermediates=%d/%s", k.IdPKey, k.IdPChain, observed))
 		}
 		if kp, ok := c07Key(k.SPKey); ok {
 			if pub, isRSA := kp.Cert.PublicKey.(*rsa.PublicKey); isRSA && pub.N.BitLen() != 2048 {
@@ -1225,14 +1392,20 @@ func simplifyRoundtrip(p *Plan) []*Plan {
 	})
 	withKnobs(func(k *c07Knobs) { k.EntityID = "" })
 	withKnobs(func(k *c07Knobs) { k.Binding = def.Binding })
-	withKnobs(func(k *c07Knobs) { k.IdPKey, k.IdPSigner, k.IdPSig = def.IdPKey, false, "" })
+	withKnobs(func(k *c07Knobs) { k.IdPKey, k.IdPSigner, k.IdPSig, k.IdPChain = def.IdPKey, false, "", 0 })
+	withKnobs(func(k *c07Knobs) { k.IdPChain = 0 })
 	withKnobs(func(k *c07Knobs) {
-		if k.IdPKey != "ec0" {
+		if k.IdPChain > 1 {
+			k.IdPChain = 1
+		}
+	})
+	withKnobs(func(k *c07Knobs) {
+		if !strings.HasPrefix(k.IdPKey, "ec") {
 			k.IdPSigner = false
 		}
 	})
 	withKnobs(func(k *c07Knobs) {
-		if k.IdPKey != "ec0" {
+		if !strings.HasPrefix(k.IdPKey, "ec") {
 			k.IdPSig = ""
 		}
 	})
@@ -1274,7 +1447,23 @@ func simplifyRoundtrip(p *Plan) []*Plan {
 						emit(func(s *c07Step) {
 							v := s.Session.Custom[j].Values
 							s.Session.Custom[j].Values = append(append([]c07Str{}, v[:q]...), v[q+1:]...)
+							if n := s.Session.Custom[j].NameIDs; q < len(n) {
+								s.Session.Custom[j].NameIDs = append(append([]*c07NIDVal{}, n[:q]...), n[q+1:]...)
+							}
 						})
+					}
+				}
+				if len(st.Session.Custom[j].NameIDs) > 0 {
+					// all values plain strings, then each name identifier on its own: plain string, bare element
+					emit(func(s *c07Step) { s.Session.Custom[j].NameIDs = nil })
+					for q, n := range st.Session.Custom[j].NameIDs {
+						if n == nil {
+							continue
+						}
+						emit(func(s *c07Step) { s.Session.Custom[j].NameIDs[q] = nil })
+						if n.Format != "" || n.NameQualifier != "" || n.SPNameQualifier != "" {
+							emit(func(s *c07Step) { s.Session.Custom[j].NameIDs[q] = &c07NIDVal{Value: n.Value} })
+						}
 					}
 				}
 			}
@@ -1289,6 +1478,11 @@ func simplifyRoundtrip(p *Plan) []*Plan {
 				fs = append(fs, &s.Custom[j].Name, &s.Custom[j].Friendly)
 				for q := range s.Custom[j].Values {
 					fs = append(fs, &s.Custom[j].Values[q])
+				}
+				for _, n := range s.Custom[j].NameIDs {
+					if n != nil {
+						fs = append(fs, &n.Value)
+					}
 				}
 			}
 			return fs
@@ -1322,7 +1516,7 @@ func simplifyRoundtrip(p *Plan) []*Plan {
 func init() {
 	register(&Profile{
 		ID: "C07", Name: "roundtrip", Level: "exploration",
-		Rule: "each run: one world (real library IdP + real library SP, each configured only from the other's published metadata passed as bytes: IdP metadata through ServeMetadata/xml.Marshal → samlsp.ParseMetadata, SP metadata through Middleware.ServeMetadata/xml.Marshal → xml.Unmarshal → IdP registry) with drawn knobs {SP key RSA 2048-bit×6 (one with keyUsage digitalSignature only, one with a SubjectKeyIdentifier), RSA 4096-bit, RSA 1024-bit/ECDSA×2/none, entity ID unset/URL/URN/URN with markup, request binding redirect/POST, requests unsigned or signed with any RSA/ECDSA method, IdP key RSA×2 or ECDSA via crypto.Signer, Key vs Signer, IdP signature method default/RSA-SHA1/256/384/512 (ECDSA-SHA1..512 for the ECDSA signer), IdP entry PostBinding vs ServeSSO+HTML5 form parse, SP entry ParseXMLResponse vs ParseResponse, metadata compact vs indented}, then 1-3 fault-free flows, each for a session whose ~12-25 strings (NameID, Index, UserName, UserEmail, UserCommonName, UserSurname, UserGivenName, UserScopedAffiliation, EduPersonPrincipalName, SubjectID, 0-3 groups, 0-2 custom attributes with name, friendly name and 0-3 values (an attribute without any value is part of the identity by its name)) are drawn from 17 XML-hostile classes × 6 placements (whole/prefix/suffix/infix/both ends/repeated), random mixes of valid XML 1.0 characters, empty and 1k-200k character strings. Non-trivial = the run contains at least one non-plain string class or one non-default knob; distinct = distinct abstract log (knobs, per-field class list, wire form, outcome, comparison result)",
+		Rule: "each run: one world (real library IdP + real library SP, each configured only from the other's published metadata passed as bytes: IdP metadata through ServeMetadata/xml.Marshal → samlsp.ParseMetadata, SP metadata through Middleware.ServeMetadata/xml.Marshal → xml.Unmarshal → IdP registry) with drawn knobs {SP key RSA 2048-bit×6 (one with keyUsage digitalSignature only, one with a SubjectKeyIdentifier), RSA 4096-bit, RSA 1024-bit/ECDSA×2/none, entity ID unset/URL/URN/URN with markup, request binding redirect/POST, requests unsigned or signed with any RSA/ECDSA method, IdP key RSA×2 or ECDSA via crypto.Signer (self-signed), or an RSA / ECDSA key whose certificate an issuing CA under a root CA issued, with 0, 1 or 2 of the CA certificates in IdentityProvider.Intermediates, Key vs Signer, IdP signature method default/RSA-SHA1/256/384/512 (ECDSA-SHA1..512 for the ECDSA signer), IdP entry PostBinding vs ServeSSO+HTML5 form parse, SP entry ParseXMLResponse vs ParseResponse, metadata compact vs indented}, then 1-3 fault-free flows, each for a session whose ~12-25 strings (NameID, Index, UserName, UserEmail, UserCommonName, UserSurname, UserGivenName, UserScopedAffiliation, EduPersonPrincipalName, SubjectID, 0-3 groups, 0-2 custom attributes with name, friendly name and 0-3 values (an attribute without any value is part of the identity by its name; a second attribute may repeat the first one's name and name format; a value is a string or a name identifier element - AttributeValue.NameID with value, Format, NameQualifier, SPNameQualifier - with or without text beside it)) are drawn from 17 XML-hostile classes × 6 placements (whole/prefix/suffix/infix/both ends/repeated), random mixes of valid XML 1.0 characters, empty and 1k-200k character strings. Non-trivial = the run contains at least one non-plain string class or one non-default knob; distinct = distinct abstract log (knobs, per-field class list, wire form, outcome, comparison result)",
 		Gen:  genRoundtrip, Exec: execRoundtrip, Simplify: simplifyRoundtrip,
 		RunsQuick: 3000, RunsThorough: 300000,
 		Assumptions: []string{
@@ -1331,6 +1525,8 @@ func init() {
 			"'the IdP's assertion equals the session' is checked without knowledge of attribute naming: each non-empty scalar is the single value of some attribute, groups are one attribute's values in order, custom attributes appear unchanged in order, no value is foreign",
 			"an SP is given encryption exactly when it has a certificate (its Metadata() then publishes it as encryption key); without a certificate requests are unsigned",
 			"the ECDSA IdP key is only used through crypto.Signer (IdentityProvider.Key with an ECDSA key is not a supported configuration and is not generated)",
+			"an IdP that sends its certificate chain along (IdentityProvider.Intermediates) has a certificate those CAs really issued; its metadata publishes the IdP's own certificate only, and that is all the SP is configured with",
+			"a name identifier inside an attribute value is compared by value, Format, NameQualifier, SPNameQualifier and SPProvidedID, as part of that value",
 		},
 		Components: map[string][]string{
 			"real": {"saml.IdentityProvider (Metadata, ServeMetadata, ServeSSO, NewIdpAuthnRequest, Validate, DefaultAssertionMaker, MakeAssertionEl, MakeResponse, PostBinding/WriteResponse)", "saml.ServiceProvider (Metadata, MakeAuthenticationRequest, Redirect/Post, ParseResponse, ParseXMLResponse)", "samlsp.ParseMetadata, samlsp.Middleware.ServeMetadata", "xmlenc, goxmldsig, etree, xml-roundtrip-validator, html/template"},
